@@ -37,6 +37,8 @@ def confirm(outdir):
         sh(["git", "-C", "/repo", "worktree", "add", "-q", "--detach", SCRATCH, "HEAD"])
     for meta_path in sorted(glob.glob(os.path.join(outdir, "m*.meta.json"))):
         n = re.search(r"m(\d+)\.meta", meta_path).group(1)
+        if os.environ.get("ONLY") and n not in os.environ["ONLY"].split(","):
+            continue
         meta = json.load(open(meta_path))
         pid = meta["property"]
         patch = os.path.join(outdir, "m%s.patch.diff" % n)
